@@ -317,7 +317,8 @@ partial def poisonFT (ft : FT) (n : Str) : FT :=
 def classes : List String := ["dupDefName", "primitiveName", "dupConstName", "dupStructField", "dupMessageField",
   "dupOptionName", "dupOptionValue", "dupOpCode", "undefStructField", "undefMessageField", "undefUnionBranchField",
   "undefMapKey", "selfStruct", "chainStruct", "dupMsgIndex", "msgIndexZero", "dupUnionIndex", "enumOutOfRange",
-  "flagsOutOfRange", "constNotAssignable", "constOutOfRange", "okRecursionViaMessage", "okRecursionViaUnion"]
+  "flagsOutOfRange", "constNotAssignable", "constOutOfRange", "okRecursionViaMessage", "okRecursionViaUnion",
+  "selfStructDeprecated", "chainStructDeprecated", "flagsShiftOverflow"]
 
 /-- Inject one error of class `cls` into a valid source; `none` when the source has no applicable site. -/
 def inject (cls : String) (src : SrcFile) : M (Option SrcFile) := do
@@ -409,16 +410,23 @@ def inject (cls : String) (src : SrcFile) : M (Option SrcFile) := do
     let i ← pickL ss
     pure (some (setAt src i (fun d => match d with
       | .st s => .st { s with fields := s.fields ++ [{ ft := .simple s.name, name := strOf "selfRef" }] } | d => d)))
-  | "chainStruct" =>
+  | "selfStructDeprecated" =>
+    -- the self reference sits in a [deprecated] field: the struct still contains itself
+    let ss := idxWhere src (fun d => match d with | .st _ => true | _ => false)
+    if ss.isEmpty then return none
+    let i ← pickL ss
+    pure (some (setAt src i (fun d => match d with
+      | .st s => .st { s with fields := s.fields ++ [{ ft := .simple s.name, name := strOf "selfRef", deprecated := some (strOf "old") }] } | d => d)))
+  | "chainStruct" | "chainStructDeprecated" =>
     let ss := idxWhere src (fun d => match d with | .st _ => true | _ => false)
     if ss.length < 2 then return none
     let i := ss.headD 0
     let j := (ss.drop 1).headD 0
     let ni := ((src.getD i default) |> defName).getD []
     let nj := ((src.getD j default) |> defName).getD []
-    let add := fun (n : Str) (d : SrcDef) => match d with
-      | .st s => SrcDef.st { s with fields := s.fields ++ [{ ft := .simple n, name := strOf "chainRef" }] } | d => d
-    pure (some (setAt (setAt src i (add nj)) j (add ni)))
+    let add := fun (n : Str) (dep : Bool) (d : SrcDef) => match d with
+      | .st s => SrcDef.st { s with fields := s.fields ++ [{ ft := .simple n, name := strOf "chainRef", deprecated := if dep then some (strOf "old") else none }] } | d => d
+    pure (some (setAt (setAt src i (add nj (cls == "chainStructDeprecated"))) j (add ni false)))
   | "dupMsgIndex" | "msgIndexZero" =>
     let ms := idxWhere src (fun d => match d with | .msg m => m.fields.length ≥ 2 | _ => false)
     if ms.isEmpty then return none
@@ -446,6 +454,18 @@ def inject (cls : String) (src : SrcFile) : M (Option SrcFile) := do
         let big : Nat := if unsigned then 2 ^ bits else 2 ^ (bits - 1)
         if bits == 64 && unsigned then .enm e
         else .enm { e with options := setAt e.options 0 (fun o => { o with expr := .lit (strOf (toString big)) }) }
+      | d => d)))
+  | "flagsShiftOverflow" =>
+    -- `3 << (bits-1)`: the shift count is below the width but a set bit is pushed out of the base type
+    let es := idxWhere src (fun d => match d with
+      | .enm e => e.options.length ≥ 1 && e.flags && (baseInfo e.base).2.2
+      | _ => false)
+    if es.isEmpty then return none
+    let i ← pickL es
+    pure (some (setAt src i (fun d => match d with
+      | .enm e =>
+        let (_, bits, _) := baseInfo e.base
+        .enm { e with options := setAt e.options 0 (fun o => { o with expr := .bin 2 (.lit (strOf "3")) (.lit (strOf (toString (bits - 1)))) }) }
       | d => d)))
   | "constNotAssignable" | "constOutOfRange" =>
     let cs := idxWhere src (fun d => match d with
